@@ -556,7 +556,12 @@ class Sandbox:
         """ Turn off any patches, store output """
         self._stop_patches()
         current_stdout = self._current_stdout.pop()
-        self.append_output(current_stdout.getvalue(), context)
+        try:
+            captured_output = current_stdout.getvalue()
+        except ValueError:
+            # The student's code closed the stream that it was given
+            captured_output = ""
+        self.append_output(captured_output, context)
 
     # Patching Functionality
     def _start_patches(self, *patches):
